@@ -27,7 +27,7 @@ import json
 import logging
 import sys
 from pathlib import Path
-from typing import Any, Dict, List, Set, Tuple
+from typing import Any, Dict, List, Optional, Set, Tuple
 
 # -----------------------------------------------------------------------------
 # 📥 Project-Specific Imports
@@ -859,6 +859,7 @@ def run_generation_workflow(
     _verify_or_refuse(
         configs=configs,
         logic_code=logic_code,
+        runner_code=runner_code,
         template=template,
         strict=not getattr(args, "no_verify", False),
     )
@@ -931,6 +932,7 @@ def _verify_or_refuse(
     logic_code: str,
     template: str,
     strict: bool,
+    runner_code: Optional[str] = None,
 ) -> None:
     """Prove the generated code rebuilds the source machine, or refuse.
 
@@ -965,6 +967,18 @@ def _verify_or_refuse(
             configs[0], logic_code, template=template, strict=structural
         )
     )
+
+    # 🔍 The runner is written too, so it is syntax-checked too. Only the
+    #    logic module used to be parsed, and a runner that was not valid
+    #    Python (an event name containing a newline) was written with exit 0.
+    if runner_code is not None:
+        try:
+            ast.parse(runner_code)
+        except SyntaxError as exc:
+            problems.append(
+                f"generated runner is not valid Python "
+                f"(line {exc.lineno}): {exc.msg}"
+            )
 
     if problems:
         message = format_refusal(template, machine_id, problems)
